@@ -54,17 +54,14 @@ type Prop struct {
 	Timeout time.Duration
 	// Direct is an optional in-process sweep (needs no model); it appends to the report.
 	Direct func(g *G, r *Report)
-<<<<<<< HEAD
-	// Canon (optional) canonicalises an answer line (of the implementation AND of the model)
-	// before anything is compared, e.g. JavaScript text -> token stream.
-	Canon func(ans string) string
-=======
 	// Canon optionally canonicalises the implementation's answer before any comparison
 	// (e.g. CRASH -> PANIC where the real code panics in a goroutine that cannot be recovered).
 	Canon func(impl string) string
 	// NTOf optionally decides non-triviality from the implementation's answer (overrides Case.NT).
 	NTOf func(c *Case, impl string) bool
->>>>>>> main
+	// CanonBoth (optional) canonicalises an answer line of the implementation AND of the model (and of
+	// the specification) before anything is compared, e.g. JavaScript text -> token stream.
+	CanonBoth func(ans string) string
 }
 
 var props = map[string]*Prop{}
@@ -169,11 +166,11 @@ func corrMain(args []string) {
 				spec[i] = sa[k]
 			}
 		}
-		if p.Canon != nil {
+		if p.CanonBoth != nil {
 			for i := range impl {
-				impl[i], model[i] = p.Canon(impl[i]), p.Canon(model[i])
+				impl[i], model[i] = p.CanonBoth(impl[i]), p.CanonBoth(model[i])
 				if w, ok := spec[i]; ok {
-					spec[i] = p.Canon(w)
+					spec[i] = p.CanonBoth(w)
 				}
 			}
 		}
